@@ -253,7 +253,7 @@ def run(ctx):
     rt.compare_recorded(ctx, o2, m2, outs[len(ops):], "statistic-arguments-model-vs-impl")
 
 
-def call_on(name, p, A, prng):
+def call_on(name, p, A, prng, pairs=False):
     """call the real function on the caller-owned arrays A with a recording callable"""
     from permute import core, ksample, stratified
     seen = []
@@ -263,7 +263,13 @@ def call_on(name, p, A, prng):
     if name == "two_sample":
         return guarded(core.two_sample, A["x"], A["y"], stat=rec2, alternative=p["alt"], keep_dist=p["keep"], **kw), seen
     if name == "two_sample_shift":
-        return guarded(core.two_sample_shift, A["x"], A["y"], stat=rec2, alternative=p["alt"], keep_dist=p["keep"], shift=p["shift"], **kw), seen
+        sh_ = p["shift"]
+        if pairs and p.get("pair"):       # the same shift given as a pair of functions (goes through potential_outcomes)
+            sh_ = ((lambda u, d=p["shift"]: u + d), (lambda u, d=p["shift"]: u - d))
+        if pairs and p.get("pairkind"):
+            from .randtests import PAIRS
+            sh_ = PAIRS[p["pairkind"]]
+        return guarded(core.two_sample_shift, A["x"], A["y"], stat=rec2, alternative=p["alt"], keep_dist=p["keep"], shift=sh_, **kw), seen
     if name == "one_sample":
         return guarded(core.one_sample, A["x"], A.get("y"), stat=rec1, alternative=p["alt"], keep_dist=p["keep"], **kw), seen
     if name in ("corr", "spearman_corr"):
